@@ -27,6 +27,16 @@ MAX_PAR = int(os.environ.get("CV_JOBS", "16"))
 STALL_S = int(os.environ.get("CV_STALL_S", "90"))
 
 
+def _cpu_seconds(pid):
+    """user+system CPU seconds of a process (Linux /proc); 0.0 if unreadable."""
+    try:
+        with open(f"/proc/{pid}/stat") as f:
+            parts = f.read().rsplit(")", 1)[1].split()
+        return (int(parts[11]) + int(parts[12])) / os.sysconf("SC_CLK_TCK")
+    except Exception:
+        return 0.0
+
+
 def _run_shards(prop, descs, watchdog_s, crash_ok=False):
     work = tempfile.mkdtemp(prefix=f"cv-{prop}-", dir=_workdir())
     procs = []  # (idx, Popen, outfile, t0)
@@ -36,9 +46,11 @@ def _run_shards(prop, descs, watchdog_s, crash_ok=False):
     failures = []
     crashes = []
     try:
+        stall_state = {}
         while pending or procs:
             while pending and len(procs) < MAX_PAR:
                 i, d = pending.pop(0)
+                stall_state.pop(i, None)
                 df = os.path.join(work, f"d{i}.json")
                 of = os.path.join(work, f"o{i}.json")
                 with open(df, "w") as f:
@@ -59,8 +71,17 @@ def _run_shards(prop, descs, watchdog_s, crash_ok=False):
                     stalled = False
                     jp = of + ".journal"
                     if crash_ok and os.path.exists(jp):
+                        # "no progress" is measured in CPU seconds the shard burnt since
+                        # its journal last moved (a loaded machine must not look like a
+                        # hang); a long wall-clock silence is the fallback for deadlocks
                         try:
-                            stalled = time.time() - os.path.getmtime(jp) > STALL_S
+                            mt = os.path.getmtime(jp)
+                            cpu = _cpu_seconds(p.pid)
+                            st = stall_state.get(i)
+                            if st is None or st[0] != mt:
+                                stall_state[i] = (mt, cpu, time.time())
+                            else:
+                                stalled = (cpu - st[1] > STALL_S) or (time.time() - st[2] > 10 * STALL_S)
                         except OSError:
                             stalled = False
                     if stalled:
@@ -207,13 +228,25 @@ def main(argv):
                     if line.strip().startswith("File"):
                         frame = line.strip().split(" in ")[-1]
                         break
+            ffile = ""
+            for blk in c["log"].split("Current thread")[-1:]:
+                for line in blk.splitlines():
+                    if line.strip().startswith("File"):
+                        ffile = line.strip().split('"')[1] if '"' in line else ""
+                        break
             if frame in ("glp_simplex", "glp_intopt", "glp_exact", "glp_interior"):
                 acc.count("solver_algorithm_stalls_ignored")
                 acc.add("solver_algorithm_stall_frames", frame)
                 continue
+            if "/cobra/" not in ffile.replace("\\", "/"):
+                # stuck outside cobrapy's own code (harness, standard library, solver
+                # wrapper): says nothing about the property; counted, shard resumed
+                acc.count("stalls_outside_cobra_ignored")
+                acc.add("stall_frames_outside_cobra", f"{os.path.basename(ffile)}:{frame}")
+                continue
             acc.violation(
                 f"{prop}/stall/{opname}",
-                f"no progress for {STALL_S}s while running {opname} (stuck in {frame or 'unknown frame'})",
+                f"no progress for {STALL_S} CPU seconds while running {opname} (stuck in {frame or 'unknown frame'})",
                 {"journal": c["journal"], "log": c["log"][-3000:], "desc": c["desc"]},
             )
             acc.count("stalls")
